@@ -96,7 +96,14 @@ func buildFailing(r *rand.Rand, d *vkit.JNode, yaml bool, used *[]vkit.JPath) (a
 		// applies to the value it was handed (the idiom for masking inside array elements)
 		cbErr := errors.New("callback says no")
 		kind := "callback-error"
-		switch r.IntN(4) {
+		switch r.IntN(6) {
+		case 2, 3:
+			// error values of slice / map types (validator-style error lists): legal errors that
+			// cannot be compared with ==
+			cbErr, kind = sliceErr{"field a: required", "field b: too long"}, "callback-error-of-slice-type"
+			if r.IntN(2) == 0 {
+				cbErr, kind = mapErr{"a": "required"}, "callback-error-of-map-type"
+			}
 		case 0:
 			if _, es := match.Any("no.such.member").JSON([]byte(`{"a":1}`)); len(es) == 1 {
 				cbErr, kind = es[0].Reason, "callback-error-taken-from-a-nested-matcher"
@@ -115,6 +122,14 @@ func buildFailing(r *rand.Rand, d *vkit.JNode, yaml bool, used *[]vkit.JPath) (a
 		return cm, fSpec{"Custom", pathOf(p), kind}, true
 	}
 }
+
+type sliceErr []string
+
+func (e sliceErr) Error() string { return strings.Join(e, "; ") }
+
+type mapErr map[string]string
+
+func (e mapErr) Error() string { return fmt.Sprint(map[string]string(e)) }
 
 func buildOK(r *rand.Rand, d *vkit.JNode, yaml bool, used *[]vkit.JPath) (anyMatcher, fSpec, bool) {
 	p, ok := pickPath(r, d, func(p vkit.JPath) bool { return (yaml || gjsonAddressable(p)) && free(p, *used) })
@@ -144,7 +159,7 @@ func free(p vkit.JPath, used []vkit.JPath) bool {
 }
 
 func checkC17(c *vkit.Ctx) {
-	c.P.Rule = "case = (document, 1-4 matchers mixing satisfiable ones with failing ones - missing path on Any/Type/Custom, Type of the wrong type, Custom callback error (a fresh error, or one taken from / wrapping the error of a matcher applied inside the callback; the Custom matcher strict or lenient about missing paths) - in random order, entry point MatchJSON|MatchYAML|MatchStandaloneJSON, mode create-allowed|Update(true)|UPDATE_SNAPS=true|CI, slot missing|equal|different); oracle: exactly one Error naming match.<Name>(\"<path>\") for every failing matcher, directory digest unchanged (backdated mtimes), and a following plain call of the same test lands in ordinal 2; every 4th case is the ErrOnMissingPath(false) metamorphic check (a missing path is ignored: same stored text as without that matcher); non-trivial = >=1 failing and >=1 satisfiable matcher in one call, or the ErrOnMissingPath(false) variant; distinct by hash(document, matchers, api, mode, slot state)"
+	c.P.Rule = "case = (document, 1-4 matchers mixing satisfiable ones with failing ones - missing path on Any/Type/Custom, Type of the wrong type, Custom callback error (a fresh error, an error of slice or map type, or one taken from / wrapping the error of a matcher applied inside the callback; the Custom matcher strict or lenient about missing paths) - in random order, entry point MatchJSON|MatchYAML|MatchStandaloneJSON, mode create-allowed|Update(true)|UPDATE_SNAPS=true|CI, slot missing|equal|different); oracle: exactly one Error naming match.<Name>(\"<path>\") for every failing matcher, directory digest unchanged (backdated mtimes), and a following plain call of the same test lands in ordinal 2; every 4th case is the ErrOnMissingPath(false) metamorphic check (a missing path is ignored: same stored text as without that matcher); non-trivial = >=1 failing and >=1 satisfiable matcher in one call, or the ErrOnMissingPath(false) variant; distinct by hash(document, matchers, api, mode, slot state)"
 	n := c.N(60000, 2000000)
 	for i := 0; i < n; i++ {
 		if !c.Mine(i) {
